@@ -156,3 +156,42 @@ def p4(pos: int, b: int, op: int) -> bool:
     post: _
     """
     return run("p4", _p4_body, dict(pos=pos, b=b, op=op))
+
+
+# ------------------------------------------------------------------ P5: size (depth / length) of generated scripts
+SHAPES = [
+    ("nested-not", lambda d: b"if " + b"not " * d + b"true { keep; }"),
+    ("nested-blocks", lambda d: b"if true { " * d + b"keep; " + b"} " * d),
+    ("nested-anyof", lambda d: b"if " + b"anyof (" * d + b"true" + b")" * d + b" { stop; }"),
+    ("long-list", lambda d: b"if exists [" + b", ".join([b'"h"'] * max(1, d)) + b"] { keep; }"),
+    ("many-commands", lambda d: b"keep;\n" * d),
+    ("unclosed-blocks", lambda d: b"if true { " * d),
+    ("elsif-chain", lambda d: b"if true { keep; } " + b"elsif false { stop; } " * d + b"else { discard; }"),
+    ("long-comment-and-string", lambda d: b"# " + b"x" * d + b"\n" + b'redirect "' + b"y" * d + b'";'),
+]
+DEPTHS = [1, 2, 30, 400, 1500, 6000]
+NSH = len(SHAPES)
+ND = len(DEPTHS)
+
+
+def _native_p5(si, di):
+    text = SHAPES[si][1](DEPTHS[di])
+    return parse_both(text), "%s x %d (%d bytes)" % (SHAPES[si][0], DEPTHS[di], len(text))
+
+
+def _p5_body(info, shape, depth):
+    si = P.decode(shape, NSH)
+    di = P.decode(depth, ND)
+    info["concrete"] = dict(shape=si, depth=di)
+    info["steps"] = 2
+    cls, show = notrace(_native_p5, si, di)
+    info["show"] = show
+    info["cls"] = "p5/%d/%d/%s" % (si, di, cls)
+
+
+def p5(shape: int, depth: int) -> bool:
+    """
+    pre: 0 <= shape < NSH and 0 <= depth < ND
+    post: _
+    """
+    return run("p5", _p5_body, dict(shape=shape, depth=depth))
